@@ -11,6 +11,9 @@ TOKEN_RE = re.compile(r'//[^\n]*|"(?:[^"\\\n]|\\.)*"|0x[0-9a-fA-F]+|[0-9]+|[A-Za
 KEYWORDS = ["proto", "import", "option", "type", "const", "enum", "message", "typedef"]
 TYPES = ["bool", "byte", "uint1", "uint3", "uint8", "uint16", "uint32", "uint63", "uint64", "uint65", "uint0", "uint999999", "int1", "int7", "int8", "int24", "int64", "int65", "int0"]
 NUMBERS = ["0", "1", "2", "7", "8", "63", "64", "65", "255", "256", "257", "65535", "65536", "65537", "4294967296", "18446744073709551616", "0x0", "0x1", "0xff", "0xFFFF", "0x10000", "0xFFFFFFFFFFFFFFFFFFFFFFFF", "00", "007", "99999999999999999999999999999999"]
+# very long numerals: beyond 2**1024 (float range), around CPython's 4300-digit limit for
+# decimal string conversion, long hexadecimal (no such limit)
+NUMBERS += ["9" * 309, "1" + "0" * 400, "9" * 4300, "9" * 4301, "1" + "0" * 5000, "0x1" + "0" * 260, "0x" + "f" * 300, "0x" + "f" * 5000, "0" * 5000 + "7"]
 BOOLS = ["true", "false", "yes", "no"]
 STRINGS = ['"' + "\\\\" * 40, '"' + '\\"' * 40, '"' + "a\\" * 30, '"' + "\\" * 41 + '"', '"' + " " * 2000 + '"', '"' + "\\n" * 500 + '"', "//" + "/" * 3000, '""', '"a"', '"a b"', '"\\n"', '"\\t\\r\\\\"', '"\\""', '"\\\'"', '"\\q"', '"\\"', '"unterminated', '"x.bitproto"', '"é→"', '"//notcomment"', '"' + "a" * 300 + '"']
 PUNCT = [":", ";", "{", "}", "[", "]", "(", ")", "/", "=", "\\", "'", ".", "+", "-", "*", ",", "@", "#", "$", "%", "&", "!", "?", "<", ">", "|", "~", "`", "^", '"']
@@ -197,6 +200,19 @@ def _coincidence_templates():
     """Valid (or nearly valid) schemas built around narrow numeric, positional,
     naming, mode and length coincidences."""
     t = []
+    big = "0x1" + "0" * 260
+    for op in ("+", "-", "*", "/"):
+        t.append("const BIGV = %s\nconst NEGV = 0 - BIGV\nconst SMALLNEG = 0 - 3\nconst R1 = NEGV %s 3\nconst R2 = BIGV %s SMALLNEG\nconst R3 = NEGV %s SMALLNEG\nconst R4 = 7 %s NEGV\nconst R5 = BIGV %s BIGV\nconst R6 = (NEGV %s 3) %s (BIGV %s 7)" % (big, op, op, op, op, op, op, op, op))
+    t.append("const DEC309 = %s\nconst DEC309N = 0 - DEC309\nconst QD = DEC309N / 7\nconst QE = DEC309 / (0 - 7)" % ("9" * 309))
+    t.append("const TOOLONG = %s" % ("9" * 4301))
+    t.append("const HUGEHEX = 0x%s\nconst HUGEHEX2 = HUGEHEX * HUGEHEX\nconst HUGENEG = 0 - HUGEHEX" % ("f" * 5000))
+    t.append("const JUSTFITS = %s\nconst JUSTOVER = JUSTFITS * 10" % ("9" * 4300))
+    t.append("type TooWide = uint%s" % ("1" * 4400))
+    t.append("type TooWideI = int%s[2]" % ("1" * 4400))
+    t.append("type TooMany = byte[%s]" % ("1" * 4400))
+    t.append("enum TooBigV : uint8 {\n    TBV = %s\n}" % ("1" * 4400))
+    t.append("message TooBigN {\n    bool b = %s\n}" % ("1" * 4400))
+    t.append("option max_bytes = %s" % ("1" * 4400))
     t.append("const P63 = 9223372036854775808\nconst P64 = 18446744073709551616\nconst P64M = 18446744073709551615\nconst P63M = 9223372036854775807\nenum E64 : uint64 {\n    E64_MAX = 18446744073709551615\n    E64_ZERO = 0\n    E64_HALF = 9223372036854775808\n}\nmessage UsesE64 {\n    E64 e = 1\n    E64[2] es = 2\n}")
     t.append("const CAPD = 64 / 8\nconst CAPE = (3 + 5) * 2 - 8\ntype CapArr = byte[CAPD]\nmessage UsesCapD {\n    CapArr a = 1\n    uint8[CAPE] b = 2\n    CapArr[CAPD] c = 3\n}")
     t.append("message Max65535 {\n    option max_bytes = 8192\n    byte[8191] a = 1\n    uint7 b = 2\n}")
